@@ -94,6 +94,20 @@ ATTRIBUTE_PROBES += [{"kids": [], "dicts": [], "kw": [[_n, _ATTR_VALUES[(_i + 1)
 
 
 # sizes ordinary calls never reach
+# things that are not children: alone, and next to valid arguments - refused by every function exactly as Tag() refuses them
+INVALID_PROBES = []
+for _t in ("generator", "iterator", "map", "dictkeys", "dictitems", "enumerate", "range", "set", "dict", "bytes", "object", "fraction", "function"):
+    INVALID_PROBES.append({"kids": [{"k": "bad", "t": _t}], "dicts": [], "kw": []})
+    INVALID_PROBES.append({"kids": [_T("a"), {"k": "bad", "t": _t}], "dicts": [[["id", S_("i")]]], "kw": [["title", S_("t")]]})
+    INVALID_PROBES.append({"kids": [{"k": "list", "t": "list", "c": [{"k": "bad", "t": _t}]}], "dicts": [], "kw": []})
+
+LARGE_PROBES = [
+    {"kids": [gen.TAG("i", _T("k%d" % k), ws=False) for k in range(1100)] + [{"k": "list", "t": "taglist", "c": [gen.TAG("b", ws=False), gen.TAG("u", ws=False)]}]
+             + [{"k": "list", "t": "list", "c": [gen.TAG("s", ws=False), {"k": "list", "t": "tuple", "c": [gen.TAG("q", ws=False)]}]}], "dicts": [], "kw": []},
+    {"kids": [{"k": "list", "t": "taglist", "c": [gen.TAG("b", ws=False)]}] + [gen.TAG("i", ws=False) for k in range(1030)] + [{"k": "list", "t": "taglist", "c": []}], "dicts": [], "kw": [["title", S_("t")]]},
+    {"kids": [_T("t%d" % k) for k in range(2100)], "dicts": [], "kw": []},
+]
+_LARGE_BUILT = {}
 LARGE_PROBE = {"kids": [_T("t%d" % k) if k % 2 else gen.TAG("i", _T("k"), ws=False) for k in range(1600)],
                "dicts": [[["data-d%d" % k, S_("v%d" % k)] for k in range(90)]], "kw": [["data_k%d" % k, S_("w%d" % k)] for k in range(120)]}
 
@@ -203,14 +217,29 @@ def check_function(ctx, modname, name, f, inline, n_random):
                {"kids": [], "dicts": [], "kw": [["class_", S_("c")], ["href", S_("/x")], ["id", S_("i")], ["src", S_("s")], ["name", S_("n")], ["type", S_("t")], ["value", S_("v")]]},
                {"kids": [], "dicts": [], "kw": [["value", S_("v")], ["type", S_("t")], ["name", S_("n")], ["src", S_("s")], ["id", S_("i")], ["href", S_("/x")], ["class_", S_("c")],
                                                 ["alt", S_("a")], ["title", S_("t")], ["style", S_("k:v;")], ["width", {"t": "num", "v": 3}], ["height", {"t": "num", "v": 4}]]}]
-    probes += STRUCTURE_PROBES + ATTRIBUTE_PROBES
+    # very large calls for EVERY function, compared cheaply (kinds of the children in order, attributes, flag, rendering)
+    for j_, args in enumerate(LARGE_PROBES):
+        if j_ not in _LARGE_BUILT:
+            _LARGE_BUILT[j_] = build_args(args)     # built once: the same argument objects go to every function (none may change them)
+            _LARGE_BUILT[j_, "fp"] = len(_LARGE_BUILT[j_][0])
+        pos, kw = _LARGE_BUILT[j_]
+        want = ht.Tag(name, *pos, _add_ws=default, **kw)
+        got = f(*pos, **kw)      # (the same argument objects: children must be the very same nodes in the same order)
+        ctx.count("oracle.pass_through_large")
+        if (len(got.children) != len(want.children) or any(a is not b for a, b in zip(got.children, want.children)) or dict(got.attrs) != dict(want.attrs)
+                or got.add_ws is not want.add_ws or got.get_html_string() != want.get_html_string()):
+            ctx.violation("pass-through-differs", "%s.%s(*a, **k) with more than a thousand children differs from Tag(%r, *a, ...)" % (modname, name, name),
+                          dict(wit, n_children=(len(got.children), len(want.children))))
+            return
+    n_all3 = len(probes) + len(STRUCTURE_PROBES)
+    probes += STRUCTURE_PROBES + ATTRIBUTE_PROBES + INVALID_PROBES
     n_fixed = len(probes)
     import zlib as _zlib
     if _zlib.crc32(name.encode()) % 9 == 0:
         probes = probes + [LARGE_PROBE]   # (one function in nine gets the very large call too; with a random _add_ws form)
     for k_, args in enumerate(probes + [rand_args(rng) for _ in range(n_random)]):
-      # the whitespace flag left out, and given explicitly either way (every fixed probe all three ways)
-      for ws_mode in ((None, True, False) if k_ < n_fixed else (rng.choice([None, None, True, False]),)):
+      # the whitespace flag left out, and given explicitly either way (the first group of fixed probes all three ways, the others in rotation)
+      for ws_mode in ((None, True, False) if k_ < n_all3 else ((None, True, False)[k_ % 3],) if k_ < n_fixed else (rng.choice([None, None, True, False]),)):
         w2 = dict(wit, args=args, _add_ws=ws_mode)
         ws_kw = {} if ws_mode is None else {"_add_ws": ws_mode}
         try:
